@@ -270,7 +270,7 @@ func genHTTP(g *hx.Gen) {
 	}
 	hostile := r.Chance(1, 3) // otherwise mostly well-behaved server
 	var resp []string
-	for k := r.Range(0, 4+3*len(calls)); k > 0; k-- {
+	for k := r.Range(len(calls), 6+5*len(calls)); k > 0; k-- {
 		if r.Chance(1, 25) {
 			resp = append(resp, "x")
 			g.Stat("reply.transport-error")
